@@ -239,7 +239,9 @@ def impl_res(R, perm):
             [float(quiet(b.effective_resistance_closeness_centrality, i)) for i in range(n)],
             attempt(b.average_effective_resistance), attempt(b.admittive_degree),
             attempt(b.average_neighbors_admittive_degree), attempt(b.local_admittive_clustering),
-            attempt(b.global_admittive_clustering), None]
+            attempt(b.global_admittive_clustering), None,
+            [float(quiet(b.vertex_current_flow_betweenness, i)) for i in range(n)],
+            attempt(b.edge_current_flow_betweenness)]
 
 
 def geo_request(A, directed, pos, D, perm):
